@@ -1209,6 +1209,32 @@ def c13(ctx):
         ctx.check()
         if not feq(x, y):
             ctx.violate("filter: messy input != clean input", "70", [True, mt, m, thr, ML], expected=y, got=x, rid=70)
+        # the same with MRTS='auto' (the threshold must be computed from the reconciled trains)
+        m_sts, c_sts = ctx.impl.trains(ML), ctx.impl.trains(CL)
+        psa = ctx.ps
+        qa = ctx.impl._quiet
+        for name, fn, kwa in (("isi_profile", psa.isi_profile, {}), ("spike_profile", psa.spike_profile, {"RI": ri}),
+                              ("spike_sync_profile", psa.spike_sync_profile, {"max_tau": float(mt)}),
+                              ("isi_distance", psa.isi_distance, {}), ("spike_distance", psa.spike_distance, {"RI": ri}),
+                              ("spike_sync", psa.spike_sync, {"max_tau": float(mt)}),
+                              ("isi_distance_matrix", psa.isi_distance_matrix, {}),
+                              ("spike_distance_matrix", psa.spike_distance_matrix, {"RI": ri}),
+                              ("spike_sync_matrix", psa.spike_sync_matrix, {"max_tau": float(mt)}),
+                              ("spike_train_order", psa.spike_train_order, {}),
+                              ("spike_train_order_profile", psa.spike_train_order_profile, {}),
+                              ("spike_directionality_values", psa.spike_directionality_values, {}),
+                              ("spike_directionality_matrix", psa.spike_directionality_matrix, {}),
+                              ("filter_by_spike_sync", lambda s, **k: psa.filter_by_spike_sync(s, float(thr), **k), {})):
+            forms = [((m_sts,), (c_sts,))]
+            if "matrix" not in name and "values" not in name and "filter" not in name:
+                forms.append(((m_sts[0], m_sts[1]), (c_sts[0], c_sts[1])))
+            for fm, fc in forms:
+                x = core.call_impl(lambda: qa(lambda: fn(*fm, MRTS='auto', **kwa)))
+                y = core.call_impl(lambda: qa(lambda: fn(*fc, MRTS='auto', Reconcile=False, **kwa)))
+                ctx.check()
+                if not feq(x, y):
+                    ctx.violate("MRTS='auto': messy input (default reconcile) != clean input with Reconcile=False",
+                                name, [ML, len(fm)], expected=y, got=x)
         # non-mutation monitor over the public API
         sts = ctx.impl.trains(ML)
         snap = [(s.spikes.copy(), s.t_start, s.t_end) for s in sts]
@@ -1224,12 +1250,25 @@ def c13(ctx):
                  lambda: ps.filter_by_spike_sync(sts, float(thr), **kw), lambda: ps.merge_spike_trains(sts),
                  lambda: ps.psth(sts, 0.25), lambda: ps.isi_distance(sts[0], sts[1], MRTS='auto'),
                  lambda: ps.spike_sync(sts[0], sts[1], interval=(0.25, 0.75))]
+        # ... also with lists of one / two trains and in the two-argument form
+        one, two = [sts[0]], sts[:2]
+        calls += [lambda: ps.merge_spike_trains(one), lambda: ps.psth(one, 0.25), lambda: ps.merge_spike_trains(two),
+                  lambda: ps.isi_profile(two, **kw), lambda: ps.spike_profile(sts[0], sts[1], **kw),
+                  lambda: ps.spike_sync_profile(sts[0], sts[1], **kw), lambda: ps.spike_distance(two, **kw),
+                  lambda: ps.spike_train_order(sts[0], sts[1], **kw), lambda: ps.spike_directionality(sts[0], sts[1], **kw),
+                  lambda: ps.spike_train_order_profile(sts[0], sts[1], **kw),
+                  lambda: ps.filter_by_spike_sync(two, float(thr), **kw),
+                  lambda: ps.spikes.reconcile_spike_trains(sts), lambda: ps.spikes.reconcile_spike_trains(one),
+                  lambda: ps.isi_lengths.default_thresh(sts), lambda: sts[0].get_spikes_non_empty(),
+                  lambda: ps.isi_distance_matrix(sts, MRTS='auto'), lambda: ps.spike_sync_matrix(sts, MRTS='auto')]
         for k, c in enumerate(calls):
             core.call_impl(c)
             ctx.check()
             for s, (sp, a, b) in zip(sts, snap):
                 if not (np.array_equal(s.spikes, sp) and s.t_start == a and s.t_end == b):
                     ctx.violate("call #%d modified its input trains" % k, "api", [ML, Nat(k)])
+                    # restore so that later calls are judged on their own
+                    s.spikes = sp.copy()
                     break
 
 
